@@ -789,3 +789,38 @@ Proof.
     destruct (A2 k) as (E1 & E2). rewrite E1, E2. rewrite (spec_run_ext ops _ _ A1 k). split; reflexivity.
 Qed.
 End RegistryT.
+
+(* bdays between any two dates is the signed day-by-day count of business days between the adjusted dates;
+   clock is the count from t0; a single b-period string bump is add *)
+Theorem bdays_is_count (hol wk : Z -> bool) (month : Z -> Z) (t0 t1 : Z) fuel a x y sx sy n :
+  adjust hol wk month t0 t1 fuel a x = Some sx -> adjust hol wk month t0 t1 fuel a y = Some sy ->
+  bdays hol wk month t0 t1 (populate hol wk t0 t1) fuel a x y = Ok n ->
+  (t0 <= sx <= t1 /\ is_bday hol wk sx = true) /\ (t0 <= sy <= t1 /\ is_bday hol wk sy = true) /\
+  n = cnt (is_bday hol wk) t0 sy - cnt (is_bday hol wk) t0 sx /\
+  (sx <= sy -> n = cnt (is_bday hol wk) (sx + 1) (sy + 1)) /\ (sy <= sx -> n = - cnt (is_bday hol wk) (sy + 1) (sx + 1)).
+Proof.
+  intros Ax Ay E. unfold bdays in E. rewrite Ax, Ay in E.
+  destruct (dt2int (populate hol wk t0 t1) sy) as [iy|] eqn:Dy; [|discriminate].
+  destruct (dt2int (populate hol wk t0 t1) sx) as [ix|] eqn:Dx; [|discriminate]. injection E as <-.
+  apply dt2int_char in Dx. apply dt2int_char in Dy. destruct Dx as (Rx & Bx & ->), Dy as (Ry & By & ->).
+  split; [split; assumption|]. split; [split; assumption|]. split; [reflexivity|]. split; intros L.
+  - pose proof (cnt_split (is_bday hol wk) t0 sx sy ltac:(lia)) as S1.
+    pose proof (cnt_split (is_bday hol wk) sx (sx + 1) (sy + 1) ltac:(lia)) as S2.
+    pose proof (cnt_split (is_bday hol wk) sx sy (sy + 1) ltac:(lia)) as S3.
+    rewrite cnt_one, Bx in S2. rewrite cnt_one, By in S3. lia.
+  - pose proof (cnt_split (is_bday hol wk) t0 sy sx ltac:(lia)) as S1.
+    pose proof (cnt_split (is_bday hol wk) sy (sy + 1) (sx + 1) ltac:(lia)) as S2.
+    pose proof (cnt_split (is_bday hol wk) sy sx (sx + 1) ltac:(lia)) as S3.
+    rewrite cnt_one, By in S2. rewrite cnt_one, Bx in S3. lia.
+Qed.
+Theorem clock_is_count (hol wk : Z -> bool) (month : Z -> Z) (t0 t1 : Z) fuel a t s i :
+  adjust hol wk month t0 t1 fuel a t = Some s ->
+  (clock hol wk month t0 t1 (populate hol wk t0 t1) fuel a t = Ok i <->
+   (t0 <= s <= t1 /\ is_bday hol wk s = true /\ i = cnt (is_bday hol wk) t0 s)).
+Proof.
+  intros As. unfold clock. rewrite As. rewrite <- dt2int_char.
+  destruct (dt2int (populate hol wk t0 t1) s) as [j|]; split; intros E; try discriminate; congruence.
+Qed.
+Theorem dt_bump_b_single (hol wk : Z -> bool) (month : Z -> Z) (t0 t1 : Z) T fuel a t n :
+  dt_bump_b hol wk month t0 t1 T fuel a t [(n, 0)] = add hol wk month t0 t1 T fuel a t n.
+Proof. cbn. destruct (add hol wk month t0 t1 T fuel a t n); reflexivity. Qed.
